@@ -35,40 +35,71 @@ PROJ = r'''
 import sys, json, io, contextlib
 sys.path.insert(0, sys.argv[1])
 buf = io.StringIO()
+projs = []
 with contextlib.redirect_stdout(buf):
     import pgradd.ThermoChem
     from pgradd.GroupAdd.Library import GroupLibrary
-    lib = GroupLibrary.Load(sys.argv[2])
-    out = {}
-    for g in lib:
-        c = lib[g].get('thermochem')
-        if c is None:
-            out[str(g)] = None
-            continue
-        out[str(g)] = {'T_ref': repr(float(c.T_ref)), 'H': repr(c.ND_H_ref) if c.ND_H_ref is None else repr(float(c.ND_H_ref)),
-                       'S': repr(c.ND_S_ref) if c.ND_S_ref is None else repr(float(c.ND_S_ref)),
-                       'Cp': sorted((repr(float(t)), repr(float(v))) for t, v in (c.ND_Cp_data or {}).items()),
-                       'range': None if c.get_range() is None else [repr(float(x)) for x in c.get_range()]}
-    uq = lib.uq_contents
-    proj = {'groups': out, 'order': [str(g) for g in lib],
-            'uq': None if not uq else {'descriptors': [str(d) for d in uq['descriptors']],
-                                       'mat': [[repr(float(x)) for x in row] for row in uq['mat']],
-                                       'dof': repr(uq['dof'])},
-            'patterns': len(lib.scheme.patterns), 'others': len(lib.scheme.other_descriptors),
-            'remaps': {str(k): [[repr(float(a)), str(b)] for a, b in v] for k, v in lib.scheme.remaps.items()}}
-print(json.dumps(proj))
+    for arg in sys.argv[2:]:
+        lib = GroupLibrary.Load(arg)
+        out = {}
+        for g in lib:
+            c = lib[g].get('thermochem')
+            if c is None:
+                out[str(g)] = None
+                continue
+            out[str(g)] = {'T_ref': repr(float(c.T_ref)), 'H': repr(c.ND_H_ref) if c.ND_H_ref is None else repr(float(c.ND_H_ref)),
+                           'S': repr(c.ND_S_ref) if c.ND_S_ref is None else repr(float(c.ND_S_ref)),
+                           'Cp': sorted((repr(float(t)), repr(float(v))) for t, v in (c.ND_Cp_data or {}).items()),
+                           'range': None if c.get_range() is None else [repr(float(x)) for x in c.get_range()]}
+        uq = lib.uq_contents
+        projs.append({'groups': out, 'order': [str(g) for g in lib],
+                      'uq': None if not uq else {'descriptors': [str(d) for d in uq['descriptors']],
+                                                 'mat': [[repr(float(x)) for x in row] for row in uq['mat']],
+                                                 'dof': repr(uq['dof'])},
+                      'patterns': len(lib.scheme.patterns), 'others': len(lib.scheme.other_descriptors),
+                      'remaps': {str(k): [[repr(float(a)), str(b)] for a, b in v] for k, v in lib.scheme.remaps.items()}})
+print(json.dumps(projs))
 '''
 
 
-def fresh_load(arg, env_extra=None):
+def fresh_loads(args, env_extra=None):
+    """one fresh process loading the given libraries one after the other -> (projections, error)"""
     env = dict(os.environ)
     env.pop('pgradd_DATA_DIR', None)
     env.update(env_extra or {})
-    p = subprocess.run([sys.executable, '-W', 'ignore', '-c', PROJ, REPO, arg], env=env,
+    p = subprocess.run([sys.executable, '-W', 'ignore', '-c', PROJ, REPO] + list(args), env=env,
                        stdout=subprocess.PIPE, stderr=subprocess.PIPE, universal_newlines=True, timeout=600)
     if p.returncode != 0:
         return None, p.stderr.strip().splitlines()[-1] if p.stderr.strip() else 'exit %d' % p.returncode
     return json.loads(p.stdout.strip().splitlines()[-1]), None
+
+
+def fresh_load(arg, env_extra=None):
+    projs, err = fresh_loads([arg], env_extra)
+    return (projs[0] if projs else None), err
+
+
+def psd_exact(rows):
+    """exact decision of positive semi-definiteness of a symmetric rational matrix by symmetric
+    elimination (Schur complements): -> None if it is, else a description of the failing pivot"""
+    a = [[Fraction(str(v)) for v in row] for row in rows]
+    n = len(a)
+    for k in range(n):
+        p = a[k][k]
+        if p < 0:
+            return 'pivot %d of the symmetric elimination is negative (%s)' % (k + 1, float(p))
+        if p == 0:
+            if any(a[k][j] != 0 for j in range(k + 1, n)):
+                return 'pivot %d is zero with a non-zero row' % (k + 1)
+            continue
+        for i in range(k + 1, n):
+            if a[i][k] == 0:
+                continue
+            f = a[i][k] / p
+            for j in range(i, n):
+                a[i][j] -= f * a[k][j]
+                a[j][i] = a[i][j]
+    return None
 
 
 def run(ctx):
@@ -82,11 +113,39 @@ def run(ctx):
     static_in = []
     events, meta = [], []
     from pgradd.RINGParser import Read
-    for name in libs:
+    from concurrent.futures import ThreadPoolExecutor
+    for name in cl.LIBS:
         shutil.copytree(os.path.join(datadir, name), os.path.join(reloc, name))
-        a, ea = fresh_load(name)
-        b, eb = fresh_load(os.path.join(datadir, name, 'library.yaml'))
-        c, ec = fresh_load(name, {'pgradd_DATA_DIR': reloc})
+    jobs = []
+    for name in cl.LIBS:
+        jobs += [(name, None), (os.path.join(datadir, name, 'library.yaml'), None), (name, {'pgradd_DATA_DIR': reloc})]
+    with ThreadPoolExecutor(max_workers=14) as ex:
+        loaded = list(ex.map(lambda j: fresh_load(*j), jobs))
+        # all nine one after the other in ONE process, in both orders: what a library contains does not
+        # depend on which libraries the process loaded before it
+        fwd, rev = ex.map(lambda order: fresh_loads(order), [list(cl.LIBS), list(reversed(cl.LIBS))])
+    byname = {}
+    for k, name in enumerate(cl.LIBS):
+        byname[name] = loaded[3 * k][0]
+    for label, order, (projs, err) in (('alphabetical', list(cl.LIBS), fwd), ('reverse', list(reversed(cl.LIBS)), rev)):
+        ctx.count('one-process:' + label)
+        if projs is None:
+            report('load-sequence:%s' % label, 'loading all libraries in %s order in one process fails: %s' % (label, err))
+            continue
+        for name, proj in zip(order, projs):
+            ref = byname.get(name)
+            if ref is not None and proj != ref:
+                diff = [g for g in ref['groups'] if proj['groups'].get(g) != ref['groups'][g]][:3]
+                report('load-sequence:%s:%s' % (label, name),
+                       'library %s loaded after %s in one process differs from loading it alone (groups e.g. %s; '
+                       'uq equal: %s; remaps equal: %s%s)'
+                       % (name, order[:order.index(name)], diff, proj['uq'] == ref['uq'], proj['remaps'] == ref['remaps'],
+                          '' if proj['remaps'] == ref['remaps'] else '; e.g. %s' % sorted(
+                              (k_, proj['remaps'].get(k_), ref['remaps'].get(k_)) for k_ in set(proj['remaps']) | set(ref['remaps'])
+                              if proj['remaps'].get(k_) != ref['remaps'].get(k_))[:2]))
+    for k, name in enumerate(cl.LIBS):
+        deep = name in libs
+        (a, ea), (b, eb), (c, ec) = loaded[3 * k:3 * k + 3]
         ctx.count('load3:' + name)
         for way, proj, err in (('by name', a, ea), ('by path', b, eb), ('relocated', c, ec)):
             if proj is None:
@@ -110,9 +169,9 @@ def run(ctx):
                     key = _canon(str(gname), None) if sect == 'groups' else str(gname)
                     groups_in_files.setdefault(key, []).append((path, y.get('units'), t))
         # documents -> LibLoad
-        in_proc_kind, lib, _ = call(ll.GroupLibrary.Load, name)
+        in_proc_kind, lib, _ = call(ll.GroupLibrary.Load, name) if deep else (None, None, None)
         nmulti = 0
-        for gname, occ in sorted(groups_in_files.items()):
+        for gname, occ in sorted(groups_in_files.items()) if deep else []:
             if len(occ) != 1 or occ[0][2] is None:
                 nmulti += 1
                 continue          # data split over several files: covered by C13
@@ -130,7 +189,7 @@ def run(ctx):
             events.append({'doc': doc, 'defs': ll.defs_of(units), 'obs': ll.obs_of('value', corr)})
             meta.append(('%s/%s' % (name, gname), corr))
         # evaluation of every group
-        for gname in a['groups']:
+        for gname in a['groups'] if deep else []:
             corr = lib[gname].get('thermochem')
             if corr is None:
                 continue
@@ -159,7 +218,7 @@ def run(ctx):
         with open(os.path.join(datadir, name, 'scheme.yaml')) as f:
             sch = yaml.safe_load(f)
         for sect, key in (('patterns', 'center_name'), ('other_descriptors', 'name')):
-            for k, pat in enumerate(sch.get(sect) or []):
+            for k, pat in enumerate((sch.get(sect) or []) if deep else []):
                 kk, q, _ = call(Read, pat['connectivity'])
                 ctx.evaluations += 1
                 if kk == 'error':
@@ -181,9 +240,11 @@ def run(ctx):
         if uq:
             ev = np.linalg.eigvalsh(np.array(uq['InvCovMat']['mat'], dtype=float))
             ctx.extra.setdefault('aux_min_eigenvalue', {})[name] = float(ev.min())
-            if ev.min() < -1e-6 * max(1.0, abs(ev.max())):
-                report('psd:%s' % name, 'library %s: uncertainty matrix has a negative eigenvalue %g '
-                       '(auxiliary numerical check)' % (name, ev.min()))
+            why = psd_exact(uq['InvCovMat']['mat'])
+            ctx.extra.setdefault('aux_psd_exact', {})[name] = why is None
+            if why is not None:
+                report('psd:%s' % name, 'library %s: uncertainty matrix is not positive semi-definite: %s; smallest '
+                       'eigenvalue %g (exact rational elimination outside TLC, see DESIGN section 6)' % (name, why, ev.min()))
     # relocation really used: a marker library only present in the relocated dir
     os.makedirs(os.path.join(reloc, 'MarkerLib'))
     shutil.copy(os.path.join(datadir, libs[0], 'scheme.yaml'), os.path.join(reloc, 'MarkerLib', 'scheme.yaml'))
@@ -212,8 +273,10 @@ def run(ctx):
     ctx.extra['libraries'] = libs
     ctx.exhaustive = True
     ctx.assumptions += [
-        'positive semi-definiteness is not decided by the specification (no real arithmetic in TLC); '
-        'an eigenvalue computation is reported as auxiliary evidence only',
+        'positive semi-definiteness is not decided by the specification (32-bit integers in TLC); it is decided '
+        'exactly by rational symmetric elimination in the harness, for all nine libraries in both tiers',
+        'loading, relocation, load-order independence, remap / basis / matrix-shape clauses cover all nine libraries '
+        'in both tiers; per-group documents, evaluation and pattern readability cover the libraries listed',
         'pattern readability uses the implementation\'s reader here; the independent TLA+ reader is C09']
 
 
